@@ -840,9 +840,9 @@ var cryptoVerifyPrims = map[string]bool{
 	"(github.com/tendermint/tendermint/crypto/secp256k1.PubKeySecp256k1).VerifyBytes": true,
 	"github.com/ethereum/go-ethereum/crypto.VerifySignature":                          true,
 	"(*github.com/btcsuite/btcd/btcec.Signature).Verify":                              true,
-	"crypto/ed25519.Verify":                                                           true,
-	"crypto/ecdsa.Verify":                                                             true,
-	"crypto/ecdsa.VerifyASN1":                                                         true,
+	"crypto/ed25519.Verify":   true,
+	"crypto/ecdsa.Verify":     true,
+	"crypto/ecdsa.VerifyASN1": true,
 }
 
 func checkVerify(r *Run) {
